@@ -192,3 +192,29 @@ Section Ckpt.
   Theorem resume_fresh input : resume_offset input None = step_of input.
   Proof. reflexivity. Qed.
 End Ckpt.
+
+(** The full training-state record of scico/flax/train/state.py (flax TrainState + batch_stats):
+    everything the trainer needs to continue.  The store keeps *states* (the theorems above are
+    over an arbitrary state type), so restoring returns every field of the saved record -- in
+    particular [opt_state] (momentum trace, Adam moments, schedule / step counts) -- and any
+    function of the state, such as the next training step [apply_gradients], gives the same
+    result as in the uninterrupted run. *)
+Section FullState.
+  Variables P B O G : Type.      (* params, batch_stats, opt_state trees; gradients *)
+  Record tstate := mkts { ts_step : nat; ts_params : P; ts_batch_stats : B; ts_opt_state : O }.
+  Variable apply_gradients : tstate -> G -> tstate.
+
+  Theorem restore_full_state (vs : list tstate) (v0 : tstate) (d : option (store tstate))
+          (fresh : tstate) (ok : bool) :
+    increasing ts_step v0 vs -> dir_above (ts_step v0) d ->
+    exists r, restore fresh (saves ts_step (v0 :: vs) d) ok = Restored r /\
+      let s := last vs v0 in
+      ts_step r = ts_step s /\ ts_params r = ts_params s /\
+      ts_batch_stats r = ts_batch_stats s /\ ts_opt_state r = ts_opt_state s /\
+      forall g, apply_gradients r g = apply_gradients s g.
+  Proof.
+    intros Hi Ha. exists (last vs v0). split.
+    - now apply restore_latest.
+    - cbn. repeat split; reflexivity.
+  Qed.
+End FullState.
